@@ -405,3 +405,16 @@ func replayFatal(rf ReplayFile, path string) int {
 	fmt.Fprintf(Stdout, "replay passes: property=%s held on this history (child process completed)\n", rf.Property)
 	return ExitHeld
 }
+
+// MemoryLimit bounds the address space of every simcalc process and of the calc binaries it
+// starts (children inherit it). The sandbox has no memory limit of its own: real code that
+// allocates without bound must die with Go's "fatal error: runtime: out of memory" inside its
+// own process (attributed to the run like any other fatal error), not take the machine down.
+const MemoryLimit = 4 << 30
+
+func limitMemory() {
+	l := syscall.Rlimit{Cur: MemoryLimit, Max: MemoryLimit}
+	if err := syscall.Setrlimit(syscall.RLIMIT_AS, &l); err != nil {
+		fmt.Fprintln(os.Stderr, "cannot limit address space:", err)
+	}
+}
